@@ -106,6 +106,41 @@ int32_t tls13TranscriptHashReinit(ssl_t *ssl)
 
     psTraceInfo("tls13TranscriptHashReinit\n");
 
+    if (ssl->cipher == NULL || ssl->cipher->ident == SSL_NULL_WITH_NULL_NULL)
+    {
+        /* Client that has just received a HelloRetryRequest: ssl->cipher
+           is not set yet, so the Transcript-Hash algorithm is still open
+           and both running hashes are being maintained. Each of them must
+           be restarted with a message_hash computed with its own
+           algorithm; using the SHA-256 one for both breaks every
+           SHA-384 ciphersuite. */
+        unsigned char mh256[4 + SHA256_HASH_SIZE];
+        unsigned char mh384[4 + SHA384_HASH_SIZE];
+
+        mh256[0] = mh384[0] = 254;
+        mh256[1] = mh256[2] = mh384[1] = mh384[2] = 0;
+        mh256[3] = SHA256_HASH_SIZE;
+        mh384[3] = SHA384_HASH_SIZE;
+        rc = tls13TranscriptHashSnapshotAlg(ssl, OID_SHA256_ALG, mh256 + 4);
+        if (rc < 0)
+        {
+            return rc;
+        }
+        rc = tls13TranscriptHashSnapshotAlg(ssl, OID_SHA384_ALG, mh384 + 4);
+        if (rc < 0)
+        {
+            return rc;
+        }
+        rc = tls13TranscriptHashInit(ssl);
+        if (rc < 0)
+        {
+            return rc;
+        }
+        psSha256Update(&ssl->sec.tls13msgHashSha256, mh256, sizeof(mh256));
+        psSha384Update(&ssl->sec.tls13msgHashSha384, mh384, sizeof(mh384));
+        return MATRIXSSL_SUCCESS;
+    }
+
     /*
       When the server responds to a
       ClientHello with a HelloRetryRequest, the value of ClientHello1 is
